@@ -171,4 +171,27 @@ theorem neg_one_pow (e : Nat) : (-1 : Int) ^ e = if e % 2 = 0 then 1 else -1 := 
       have : (e + 2) % 2 = e % 2 := by omega
       rw [this]; split <;> rfl
 
+/-- quotient of a value by a divisor of at least its magnitude (`b > 0`): 1 at `x = b`, else 0 or -1 by the sign -/
+theorem fdiv_small_pos (x b : Int) (hb : 0 < b) (h1 : -b ≤ x) (h2 : x ≤ b) :
+    x.fdiv b = if x = b then 1 else if 0 ≤ x then 0 else -1 := by
+  rw [Int.fdiv_eq_ediv_of_nonneg _ (by omega)]
+  by_cases e : x = b
+  · rw [if_pos e]
+    exact ((Int.ediv_emod_unique (r := 0) hb).mpr ⟨by omega, by omega, hb⟩).1
+  · rw [if_neg e]
+    by_cases h0 : 0 ≤ x
+    · rw [if_pos h0]
+      exact ((Int.ediv_emod_unique (r := x) hb).mpr ⟨by omega, h0, by omega⟩).1
+    · rw [if_neg h0]
+      exact ((Int.ediv_emod_unique (r := x + b) hb).mpr ⟨by omega, by omega, by omega⟩).1
+
+theorem fdiv_small_neg (x b : Int) (hb : b < 0) (h1 : b ≤ x) (h2 : x ≤ -b) :
+    x.fdiv b = if x = b then 1 else if x ≤ 0 then 0 else -1 := by
+  rw [← Int.neg_fdiv_neg, fdiv_small_pos (-x) (-b) (by omega) (by omega) (by omega)]
+  by_cases e : x = b
+  · rw [if_pos (by omega), if_pos e]
+  · rw [if_neg (by omega), if_neg e]
+    by_cases h0 : x ≤ 0
+    · rw [if_pos (by omega), if_pos h0]
+    · rw [if_neg (by omega), if_neg h0]
 end XrayModel.Arith
